@@ -17,7 +17,7 @@
    EOF id never arrive"; C20_beyond_eof_refuted shows it is needed, and
    C20_recv_done_general needs nothing else (arbitrary data). *)
 From Coq Require Import NArith ZArith List Bool Arith.
-From HV Require Import Base.Bytes Asset.Xfer Asset.XferProofs Asset.Schema Asset.SchemaProofs.
+From HV Require Import Base.Bytes Asset.Xfer Asset.XferProofs Asset.Schema Asset.SchemaProofs Asset.Digits Asset.Record Asset.RecordProofs.
 Import ListNotations.
 Local Open Scope nat_scope.
 
@@ -200,8 +200,7 @@ Proof. vm_compute. repeat split; reflexivity. Qed.
 (* (B) legacy line-oriented schema: the line framing (Asset/Schema.v).
    PROVED here: field lines, blocks and multi-line strings survive to_writer -> _yield_schema_tokens
    under the stated domains (key_ok / val_ok / mstr_ok say exactly what the token regex and strip()
-   force).  NOT proved (impl-level oracle only): the typed field kinds (int, hex, date, UUID, enum,
-   embedded LLSD), the dataclass construction and the LLSD flavours. *)
+   force).  Typed fields and whole records: see the second half of this part (Asset/Record.v). *)
 
 (* one field line: strip + token regex give back exactly (key, value) *)
 Theorem C20_schema_field_line : forall k v, key_ok k = true -> val_ok v = true ->
@@ -245,3 +244,84 @@ Example C20_ex_schema :
   read_block (render_block [f1; f2] ++ [[9; 9; 120; 9; 121]%N])
     = ([(fst f1, Some (snd f1)); (fst f2, Some (snd f2))], [[9; 9; 120; 9; 121]%N]).
 Proof. vm_compute. repeat split; reflexivity. Qed.
+
+(* ====================================================================================== *)
+(* (B, continued) typed fields and records (Asset/Digits.v, Asset/Record.v).
+   PROVED: the digit conversions behind str(int) / int(), "%08x" / int(.,16), str(UUID) / UUID(); every
+   field kind's deserialize(serialize v) = v inside its domain; the generic record round-trip through
+   to_writer -> from_reader for ANY well-formed schema of these kinds (primitive fields and one level of
+   nested blocks, optional fields omitted when None, include_none LLSD, llsd_only fields), instantiated at
+   the live dataclass schemas by gen/C20_records.v (wf_schema = true by vm_compute on every run).
+   ORACLE (not proved): llsd.format_xml/parse_xml for embedded LLSD (the model carries its XML text),
+   calendar.timegm/utcfromtimestamp for dates (the model carries POSIX seconds), uuid.UUID/int() accepting
+   more spellings than the canonical ones written. *)
+
+Theorem C20_int_text : forall z, int_of_text (int_to_text z) = Some z /\ val_ok (int_to_text z) = true.
+Proof. intros z. split; [apply int_roundtrip | apply int_text_ok]. Qed.
+Print Assumptions C20_int_text.
+
+Theorem C20_hex_text : forall n, hex_of_text (hex8_to_text n) = Some n /\ val_ok (hex8_to_text n) = true.
+Proof. intros n. split; [apply hex8_roundtrip | apply hex8_text_ok]. Qed.
+Print Assumptions C20_hex_text.
+
+Theorem C20_uuid_text : forall u, (u < 2 ^ 128)%N ->
+  uuid_of_text (uuid_to_text u) = Some u /\ length (uuid_to_text u) = 36 /\ val_ok (uuid_to_text u) = true.
+Proof. intros u H. split; [now apply uuid_roundtrip | split; [apply uuid_text_length | apply uuid_text_ok]]. Qed.
+Print Assumptions C20_uuid_text.
+
+(* every field kind: the text written is an acceptable schema value and reads back as the value *)
+Theorem C20_field_kind : forall k v, dom_prim k v = true ->
+  val_ok (ser k v) = true /\ deser k (Some (ser k v)) = Some (Some v).
+Proof. intros k v H. split; [now apply ser_ok | now apply deser_ser]. Qed.
+Print Assumptions C20_field_kind.
+
+(* the record round-trip, for every well-formed schema and every record in its domain; [tail] = whatever
+   follows in the reader (the next node, an enclosing block) - it is left untouched *)
+Theorem C20_record_roundtrip : forall name S r tail, wf_schema S = true -> dom S r = true ->
+  from_lines S (skipn 1 (to_lines name S r) ++ tail) = Some (r, tail).
+Proof. exact record_roundtrip. Qed.
+Print Assumptions C20_record_roundtrip.
+
+(* ... and the first line written is the token (SCHEMA_NAME, "0") the enclosing reader dispatches on *)
+Theorem C20_record_header_token : forall name, key_ok name = true ->
+  exists l rest, header name = l :: rest /\
+    exists c s, strip l = c :: s /\ parse_stripped (c :: s) = Some (name, Some [ZERO]).
+Proof. exact header_token. Qed.
+Print Assumptions C20_record_header_token.
+
+(* lookup-name enums: what the generated vm_compute obligation on the live tables means *)
+Theorem C20_enum_tables : forall members exc to_tbl from_tbl, enum_rt_all members exc to_tbl from_tbl = true ->
+  (forall e, In e members -> ~ In e exc -> exists s, assoc_z to_tbl e = Some s /\ assoc_s from_tbl s = Some e) /\
+  (forall e, In e exc -> ~ exists s, assoc_z to_tbl e = Some s /\ assoc_s from_tbl s = Some e).
+Proof. exact enum_rt_all_spec. Qed.
+Print Assumptions C20_enum_tables.
+
+(* non-vacuity: a schema with every kind, a nested block, an omitted optional field, an include_none LLSD
+   field that is None and an llsd_only field; and the domain is needed (a name with a leading blank changes) *)
+Definition ex_undef : str := [60; 117; 47; 62]%N.
+Definition ex_enum_to : list (Z * str) := [(0%Z, [110; 111; 116]); (1%Z, [111; 114; 105; 103])]%N.
+Definition ex_enum_from : list (str * Z) := [([110; 111; 116], 0%Z); ([111; 114; 105; 103], 1%Z)]%N.
+Definition ex_schema : schema := [
+  mkF [105; 100]%N (FP KUUID) None false false;
+  mkF [112]%N (FB [112]%N [mkPF [109]%N KHex None false false; mkPF [103]%N KInt (Some None) false true]) None false false;
+  mkF [116]%N (FP (KEnum ex_enum_to ex_enum_from)) (Some None) false false;
+  mkF [110]%N (FP KMStr) (Some None) false false;
+  mkF [100]%N (FP KDate) (Some None) false false;
+  mkF [120]%N (FP (KLLSD ex_undef)) (Some None) true false;
+  mkF [118]%N (FP KInt) (Some (Some (P (VZ (-1))))) false true ].
+Definition ex_record : record := [
+  Some (P (VN 255)); Some (R [Some (VN 581632); None]); Some (P (VZ 1)); Some (P (VS [78; 32; 120; 32]%N)); None; None;
+  Some (P (VZ (-1))) ].
+
+Example C20_ex_record :
+  wf_schema ex_schema = true /\ dom ex_schema ex_record = true /\
+  length (to_lines [105]%N ex_schema ex_record) = 12 /\
+  from_lines ex_schema (skipn 1 (to_lines [105]%N ex_schema ex_record) ++ [[9; 120]%N]) = Some (ex_record, [[9; 120]%N]).
+Proof. vm_compute. repeat split; reflexivity. Qed.
+
+Theorem C20_record_dom_refuted :
+  let r := [Some (P (VN 255)); Some (R [Some (VN 1); None]); None; Some (P (VS [32; 120]%N)); None; None; Some (P (VZ (-1)))] in
+  dom ex_schema r = false /\
+  option_map fst (from_lines ex_schema (skipn 1 (to_lines [105]%N ex_schema r))) <> Some r.
+Proof. vm_compute. split; [reflexivity | discriminate]. Qed.
+Print Assumptions C20_record_dom_refuted.
